@@ -65,6 +65,22 @@ pub fn main(args: &[String]) -> i32 {
             ram_filling: 0,
             messages: vec![],
         };
+        if i % 5 == 2 {
+            // a write that cannot succeed comes first (no such directory): what it leaves behind in the writer must not show in the next file
+            let bad = dir.join("no_such_dir").join(format!("{}.hex", i));
+            let br_bad = BuildResult {
+                code: vec![0xAA; 40],
+                eeprom: vec![0xBB; 24],
+                flash_size: fig[0],
+                eeprom_size: fig[1],
+                ram_size: fig[2],
+                ram_filling: 0,
+                messages: vec![],
+            };
+            let _ = std::panic::catch_unwind(move || {
+                let _ = if code { write_code_hex(bad, &br_bad) } else { write_eeprom_hex(bad, &br_bad) };
+            });
+        }
         let out2 = out.clone();
         let r = std::panic::catch_unwind(move || {
             if code {
